@@ -2,6 +2,7 @@
 from __future__ import annotations
 
 import os
+import zlib
 import random
 import shutil
 import tempfile
@@ -101,6 +102,17 @@ def one_history(lab, mon, rng, case, stale, sample=False):
         if fail_fast:
             plugins.append(skip_rest)
             mon.seen("fail_fast_environment", fail_fast)
+        cleanup_owner = []
+        if case.get("raising_cleanup"):
+            # a scenario whose steps pass but whose cleanup raises ended in an error-class status: it belongs into the report
+            def bad_cleanup_plugin(state, context, name, elem, tag):
+                if name == "before_scenario" and not cleanup_owner and zlib.crc32(elem.name.encode("utf-8")) % 2 == 0:
+                    cleanup_owner.append(str(elem.location))
+
+                    def bad_cleanup():
+                        raise RuntimeError("injected cleanup failure")
+                    context.add_cleanup(bad_cleanup)
+            plugins.append(bad_cleanup_plugin)
         obs = lab.run(case["program"], args=case["args"], features=feats, formatters=formatters,
                       hook_fault=case.get("hook_fault"), hook_plugins=plugins)
         W = lambda **kw: RB.witness(case, **kw)
@@ -121,6 +133,10 @@ def one_history(lab, mon, rng, case, stale, sample=False):
         got = lines or []
         mon.check("rerun.lists_exactly_unsuccessful", got == [w[0] for w in want],
                   lambda: W(got=got, want=[list(w) for w in want], file_exists=lines is not None))
+        if cleanup_owner and obs.verdict:
+            mon.check("rerun.scenario_with_failed_cleanup_is_listed", cleanup_owner[0] in got,
+                      lambda: W(scenario_whose_cleanup_raised=cleanup_owner[0], listed=got,
+                                its_status=[w for w in status_of.items()][:0] or None))
         for w in want:
             mon.seen("listed_status", w[2])
         if not want:
@@ -253,6 +269,10 @@ def run(spec, mon):
                 case = dict(case, hook_fault={"k": rng.choice(ks), "exc": rng.choice(["Exception", "AssertionError"])})
         if i % 5 == 3:
             case = dict(case, fail_fast=rng.choice(["feature", "rule"]))
+        if i % 6 == 1 and not case.get("hook_fault") and not case.get("fail_fast"):
+            # (not together with the fail-fast environment: skip() after a cleanup failure loses the error -- known finding of C13)
+            case = dict(case, raising_cleanup=True)
+            mon.seen("raising_cleanup", "scenario layer")
         if i % 10 == 7:
             # "-f rerun -o reports/rerun.txt": the report in a sub-directory, fed back as @reports/rerun.txt
             case = dict(case, rerun_file="reports/rerun.txt")
